@@ -362,7 +362,11 @@ func randint(args ...vals.Num) (vals.Num, error) {
 	} else { // len(args) == 2
 		if low, ok := args[0].(int); ok {
 			if high, ok := args[1].(int); ok {
-				return randIntSmallInt(low, high)
+				// Use the machine-integer path only if high - low does not
+				// overflow; otherwise fall through to the big-integer path.
+				if high <= low || high-low > 0 {
+					return randIntSmallInt(low, high)
+				}
 			}
 		}
 		// One or both of low and high is *big.Int
